@@ -112,6 +112,13 @@ def run(chk: Check):
     for i in range(60 if chk.tier == "quick" else 1000):
         scn = ch.gen_scn(rng, sched="rr", restore=True, max_batches=rng.randint(3, 14))
         scn.conv = None
+        if i % 2 == 1:
+            # no saving folder: checkpoints are only the explicit create_checkpoint() calls, possibly several batches apart
+            scn.folder = False
+            scn.ops = [o for o in scn.ops]
+            if not any(o[0] == "K" for o in scn.ops):
+                scn.ops.insert(rng.randint(1, len(scn.ops)), ("K",))
+            chk.count("stub:explicit_checkpoints_only")
         with warnings.catch_warnings():
             warnings.simplefilter("ignore")
             lines, info = ch.run_real(scn)
@@ -152,6 +159,20 @@ def run(chk: Check):
                "seed": rng.randrange(10 ** 6), "n_jobs": 1}
         n = 5
         check_cfg(chk, cfg, n, [[(1, "restore")] * (n - 1) + [(1, "end")], [(2, "restore"), (n - 2, "end")]], "loss_options")
+    # explicit checkpoints only (no saving folder), several batches between two of them, the same folder all along
+    for i in range(2 if chk.tier == "quick" else 20):
+        cfg = gen_cfg(rng, k_samplers=rng.randint(2, 4))
+        cfg["explicit_checkpoints"] = True
+        n = rng.randint(6, 9)
+        comps = []
+        for _ in range(2):
+            cuts = sorted(rng.sample(range(1, n), rng.randint(2, 3)))
+            seg, prev = [], 0
+            for cpt in cuts:
+                seg.append((cpt - prev, rng.choice(["restore", "restore", "live"]))); prev = cpt
+            seg.append((n - prev, "end"))
+            comps.append(seg)
+        check_cfg(chk, cfg, n, comps, "explicit_checkpoints")
     # all nine samplers, sampled compositions of a longer run
     for i in range(4 if chk.tier == "quick" else 40):
         cfg = gen_cfg(rng, k_samplers=9)
